@@ -239,9 +239,12 @@ func ruleV8(c *Ctx) {
 			var ks []int64
 			opT := c.P.Named(compilePkg, "Opcode")
 			for _, a := range call.Call.Args[1:] {
-				if k, ok := a.(*ssa.Const); ok && opT != nil && types.Identical(k.Type(), opT) {
-					v, _ := constInt(k)
-					ks = append(ks, v)
+				if opT != nil && types.Identical(a.Type(), opT) {
+					// a constant, a phi of constants (op chosen by a switch) or a forwarded parameter
+					if _, isParam := a.(*ssa.Parameter); !isParam {
+						ops, _ := possibleOpcodes(fn, a)
+						ks = append(ks, ops...)
+					}
 				}
 				for _, v := range variadicElems(a) {
 					if k, ok := v.(*ssa.Const); ok && opT != nil && types.Identical(k.Type(), opT) {
@@ -356,74 +359,83 @@ func ruleV9(c *Ctx) {
 		if !mayEmit[fn] || fn.Parent() != nil {
 			continue
 		}
-		fn := fn
-		eachInstr(fn, func(in ssa.Instruction) {
-			ta, ok := in.(*ssa.TypeAssert)
-			if !ok || !ta.CommaOk {
-				return
+		for _, arm := range compArms(fn) {
+			if arm.prm == nil {
+				continue // helpers with a typed node parameter are judged through their callers (summaries)
 			}
-			prm, ok := ta.X.(*ssa.Parameter)
-			if !ok {
-				return
-			}
-			node := syntaxNodeName(ta.AssertedType)
-			if node == "" {
-				return
-			}
-			st := ta.AssertedType.(*types.Pointer).Elem().Underlying().(*types.Struct)
-			// the arm: success edge of the If on extract #1
-			var v ssa.Value
-			var entry *ssa.BasicBlock
-			for _, r := range *ta.Referrers() {
-				ex, ok := r.(*ssa.Extract)
-				if !ok {
-					continue
-				}
-				if ex.Index == 0 {
-					v = ex
-				}
-				if ex.Index == 1 {
-					for _, r2 := range *ex.Referrers() {
-						if ifi, ok := r2.(*ssa.If); ok {
-							entry = ifi.Block().Succs[0]
-						}
-					}
-				}
-			}
-			if entry == nil {
-				return
-			}
-			for i := 0; i < st.NumFields(); i++ {
-				f := st.Field(i)
+			for i := 0; i < arm.st.NumFields(); i++ {
+				f := arm.st.Field(i)
 				if !isChildField(f.Type()) {
 					continue
 				}
-				key := fmt.Sprintf("%s: arm %s, child %s", fnName(fn), node, f.Name())
-				pos := c.P.Pos(ta.Pos())
-				if r, ok := v9Exceptions[node+"."+f.Name()]; ok {
+				key := fmt.Sprintf("%s: arm %s, child %s", fnName(fn), arm.node, f.Name())
+				pos := c.P.Pos(arm.pos)
+				if r, ok := v9Exceptions[arm.node+"."+f.Name()]; ok {
 					c.except(key, pos, r)
 					continue
 				}
-				if why := skippedChild(fn, entry, v, prm, i, mayEmit, closedFor(c, node, st)); why != "" {
-					c.viol(key, pos, fmt.Sprintf("the compiler can finish this arm without compiling %s.%s (%s): the operand's evaluation, with its side effects and failures, would be dropped from the program", node, f.Name(), why))
+				if why := skippedChild(fn, arm.entry, arm.v, arm.prm, i, mayEmit, closedFor(c, arm.node, arm.st), "all", 3); why != "" {
+					c.viol(key, pos, fmt.Sprintf("the compiler can finish this arm without compiling %s.%s (%s): the operand's evaluation, with its side effects and failures, would be dropped from the program", arm.node, f.Name(), why))
 				} else {
 					c.ok(key, pos, "every non-panicking path hands the child to a compiling call, or knows it to be nil or a literal")
 				}
 			}
-		})
+		}
 	}
 }
 
 // skippedChild searches for a path from the arm's entry to a return that
 // neither compiles field #fi of node v nor knows it to be nil / a Literal.
-func skippedChild(fn *ssa.Function, entry *ssa.BasicBlock, v ssa.Value, prm *ssa.Parameter, fi int, mayEmit map[*ssa.Function]bool, closed func(failed []string) bool) string {
+// mode selects which returns count as exits: "all", or for bool-returning helpers
+// "true" / "false" (the caller branches on the result). depth bounds the descent
+// into helpers that are handed the node itself.
+var v9Stack = map[*ssa.Function]bool{}
+
+func skippedChild(fn *ssa.Function, entry *ssa.BasicBlock, v ssa.Value, prm *ssa.Parameter, fi int, mayEmit map[*ssa.Function]bool, closed func(failed []string) bool, mode string, depth int) string {
+	// helperCovers: the call hands the node itself to a helper whose parameter has the
+	// node's type; the helper is judged by its own paths (summary), for the given result
+	helperCovers := func(com *ssa.CallCommon, isNode func(ssa.Value) bool, m string) (known, covers bool) {
+		cal := com.StaticCallee()
+		if cal == nil || cal.Blocks == nil || !mayEmit[cal] {
+			return false, false
+		}
+		for i, a := range com.Args {
+			if i < len(cal.Params) && isNode(a) && types.Identical(cal.Params[i].Type(), v.Type()) {
+				if cal == fn || v9Stack[cal] {
+					// (mutual) recursion on the same node: assumed to cover - if every exit that does not
+					// recurse covers the child, every terminating execution does, by induction on depth
+					return true, true
+				}
+				if depth <= 0 {
+					return true, false
+				}
+				v9Stack[fn] = true
+				why := skippedChild(cal, cal.Blocks[0], cal.Params[i], nil, fi, mayEmit, closed, m, depth-1)
+				delete(v9Stack, fn)
+				if why != "" && os.Getenv("VERIF_DEBUG_PATH") != "" {
+					fmt.Fprintf(os.Stderr, "summary %s field %d mode %s: %s\n", cal.Name(), fi, m, why)
+				}
+				return true, why == ""
+			}
+		}
+		return false, false
+	}
 	// values that stand for the child: loads of &v.f, and type assertions / unparen-like calls of them
 	child := map[ssa.Value]bool{}
 	// isNode: x is the arm's node v, or a reload of v from the cell it was spilled to
 	// (a closure capturing the switch variable makes it address-taken)
-	isNode := func(x ssa.Value) bool {
+	var isNode func(x ssa.Value) bool
+	isNode = func(x ssa.Value) bool {
 		if x == v {
 			return true
+		}
+		// a cursor that starts at the node and walks down one of its children (for plus := e; ; plus = x)
+		if phi, ok := x.(*ssa.Phi); ok {
+			for _, e := range phi.Edges {
+				if e == v {
+					return true
+				}
+			}
 		}
 		u, ok := x.(*ssa.UnOp)
 		if !ok || u.Op != token.MUL {
@@ -525,23 +537,38 @@ func skippedChild(fn *ssa.Function, entry *ssa.BasicBlock, v ssa.Value, prm *ssa
 		case ssa.CallInstruction:
 			com := in.Common()
 			cal := com.StaticCallee()
+			if known, cov := helperCovers(com, isNode, "all"); known {
+				return cov
+			}
 			for _, a := range com.Args {
 				if cal == nil || !mayEmit[cal] {
 					break
 				}
-				if child[a] || isNode(a) || a == ssa.Value(prm) {
+				if child[a] || isNode(a) || (prm != nil && a == ssa.Value(prm)) {
 					return true
 				}
 				// the node converted to an interface (passing e as syntax.Expr/Node)
 				if mi, ok := a.(*ssa.MakeInterface); ok && isNode(mi.X) {
 					return true
 				}
-				if ct, ok := a.(*ssa.ChangeInterface); ok && (child[ct.X] || ct.X == ssa.Value(prm)) {
+				if ct, ok := a.(*ssa.ChangeInterface); ok && (child[ct.X] || (prm != nil && ct.X == ssa.Value(prm))) {
 					return true
 				}
 				// a modified copy of the node (copy := *e; copy.Op = ...; compile(&copy))
 				if isCopyOf(a, v, isNode) {
 					return true
+				}
+			}
+			// the node or child handed to a non-emitting helper that returns a collection (a worklist
+			// of operands, as in the flattening of a+b+c): its elements are compiled from there
+			if cal != nil && !mayEmit[cal] && fnPkgPath(cal) == modPath+"/"+compilePkg && cal.Signature.Results().Len() == 1 {
+				switch cal.Signature.Results().At(0).Type().Underlying().(type) {
+				case *types.Slice, *types.Map:
+					for _, a := range com.Args {
+						if child[a] || isNode(a) {
+							return true
+						}
+					}
 				}
 			}
 			// range over a slice child: len(child) feeding the loop test
@@ -560,6 +587,16 @@ func skippedChild(fn *ssa.Function, entry *ssa.BasicBlock, v ssa.Value, prm *ssa
 			return child[in.X]
 		case *ssa.Range:
 			return child[in.X]
+		case *ssa.Store:
+			// the child put into a local data structure (a field of a worklist element): compiled from there
+			if child[in.Val] {
+				switch a := in.Addr.(type) {
+				case *ssa.FieldAddr, *ssa.IndexAddr:
+					return true
+				case *ssa.Alloc:
+					return !isVarCellOfNodeType(a)
+				}
+			}
 		}
 		return false
 	}
@@ -585,6 +622,16 @@ func skippedChild(fn *ssa.Function, entry *ssa.BasicBlock, v ssa.Value, prm *ssa
 		if x, neq, ok := nilTest(cond); ok && child[x] {
 			// x == nil taken, or x != nil not taken
 			return taken != neq
+		}
+		// the result of a helper that was handed the node: "handled" idiom
+		if hc, ok := cond.(*ssa.Call); ok {
+			m := "false"
+			if taken {
+				m = "true"
+			}
+			if known, cov := helperCovers(hc.Common(), isNode, m); known && cov {
+				return true
+			}
 		}
 		if ex, ok := cond.(*ssa.Extract); ok && ex.Index == 1 {
 			if ta, ok := ex.Tuple.(*ssa.TypeAssert); ok && child[ta.X] && syntaxNodeName(ta.AssertedType) == "Literal" {
@@ -624,9 +671,13 @@ func skippedChild(fn *ssa.Function, entry *ssa.BasicBlock, v ssa.Value, prm *ssa
 		return fmt.Sprintf("%d:%d", fa.Field, k), true
 	}
 	seen := map[string]bool{}
-	var walk func(b *ssa.BasicBlock, failed []string) string
-	walk = func(b *ssa.BasicBlock, failed []string) string {
-		sk := fmt.Sprintf("%d|%s", b.Index, strings.Join(failed, ","))
+	var walk func(b, from *ssa.BasicBlock, failed []string) string
+	walk = func(b, from *ssa.BasicBlock, failed []string) string {
+		fromIdx := -1
+		if from != nil {
+			fromIdx = from.Index
+		}
+		sk := fmt.Sprintf("%d|%d|%s", b.Index, fromIdx, strings.Join(failed, ","))
 		if seen[sk] {
 			return ""
 		}
@@ -637,15 +688,6 @@ func skippedChild(fn *ssa.Function, entry *ssa.BasicBlock, v ssa.Value, prm *ssa
 		if len(b.Instrs) == 0 {
 			return ""
 		}
-		switch last := b.Instrs[len(b.Instrs)-1].(type) {
-		case *ssa.Panic:
-			return ""
-		case *ssa.Return:
-			if closed != nil && closed(failed) {
-				return "" // implicit default of a switch whose cases list every value the parser can produce
-			}
-			return fmt.Sprintf("path reaching the return at %s via block %d", fn.Prog.Fset.Position(last.Pos()), b.Index)
-		}
 		// a call to log.Panicf (does not return) ends the path
 		for _, in := range b.Instrs {
 			if ci, ok := in.(ssa.CallInstruction); ok {
@@ -653,6 +695,28 @@ func skippedChild(fn *ssa.Function, entry *ssa.BasicBlock, v ssa.Value, prm *ssa
 					return ""
 				}
 			}
+		}
+		switch last := b.Instrs[len(b.Instrs)-1].(type) {
+		case *ssa.Panic:
+			return ""
+		case *ssa.Return:
+			if closed != nil && closed(failed) {
+				return "" // implicit default of a switch whose cases list every value the parser can produce
+			}
+			if mode != "all" && len(last.Results) == 1 {
+				res := last.Results[0]
+				if phi, ok := res.(*ssa.Phi); ok && phi.Block() == b && from != nil {
+					for i, p := range b.Preds {
+						if p == from {
+							res = phi.Edges[i]
+						}
+					}
+				}
+				if k, ok := res.(*ssa.Const); ok && k.Value != nil && k.Value.String() != mode {
+					return "" // this exit reports the other result
+				}
+			}
+			return fmt.Sprintf("path reaching the return at %s via block %d", fn.Prog.Fset.Position(last.Pos()), b.Index)
 		}
 		for i, s := range b.Succs {
 			if pruned(b, i) {
@@ -663,8 +727,24 @@ func skippedChild(fn *ssa.Function, entry *ssa.BasicBlock, v ssa.Value, prm *ssa
 				if k, ok := scalarCmp(ifi.Cond); ok {
 					f2 = append(append([]string{}, failed...), k)
 				}
+				// a predicate helper on the operator field (isAugmentedAssignOp(stmt.Op)) that answered false
+				condv := ifi.Cond
+				if ex, ok := condv.(*ssa.Extract); ok {
+					condv = ex.Tuple // binary, ok := augmentedBinop(stmt.Op)
+				}
+				if pc, ok := condv.(*ssa.Call); ok && len(pc.Call.Args) == 1 {
+					if u, ok := pc.Call.Args[0].(*ssa.UnOp); ok {
+						if fa, ok := u.X.(*ssa.FieldAddr); ok && isNode(fa.X) {
+							if cal := pc.Call.StaticCallee(); cal != nil {
+								for _, k := range predicateTrueSet(cal) {
+									f2 = append(append([]string{}, f2...), fmt.Sprintf("%d:%d", fa.Field, k))
+								}
+							}
+						}
+					}
+				}
 			}
-			if why := walk(s, f2); why != "" {
+			if why := walk(s, b, f2); why != "" {
 				if os.Getenv("VERIF_DEBUG_PATH") != "" {
 					why += fmt.Sprintf(" <- %d", b.Index)
 				}
@@ -673,7 +753,7 @@ func skippedChild(fn *ssa.Function, entry *ssa.BasicBlock, v ssa.Value, prm *ssa
 		}
 		return ""
 	}
-	return walk(entry, nil)
+	return walk(entry, nil, nil)
 }
 
 // isCopyOf: a is (the address of, or an interface holding the address of) a
@@ -920,36 +1000,9 @@ func ruleV10(c *Ctx) {
 			continue
 		}
 		fn := fn
-		eachInstr(fn, func(in ssa.Instruction) {
-			ta, ok := in.(*ssa.TypeAssert)
-			if !ok || !ta.CommaOk {
-				return
-			}
-			if _, ok := ta.X.(*ssa.Parameter); !ok {
-				return
-			}
-			node := syntaxNodeName(ta.AssertedType)
-			if node == "" {
-				return
-			}
-			var v ssa.Value
-			var entry *ssa.BasicBlock
-			for _, r := range *ta.Referrers() {
-				if ex, ok := r.(*ssa.Extract); ok {
-					if ex.Index == 0 {
-						v = ex
-					} else if ex.Referrers() != nil {
-						for _, r2 := range *ex.Referrers() {
-							if ifi, ok := r2.(*ssa.If); ok {
-								entry = ifi.Block().Succs[0]
-							}
-						}
-					}
-				}
-			}
-			if v == nil || entry == nil {
-				return
-			}
+		for _, arm := range compArms(fn) {
+			v, entry, node := arm.v, arm.entry, arm.node
+			armPos := arm.pos
 			var sites []site
 			collect := func(g *ssa.Function, mc *ssa.MakeClosure, anchor *ssa.BasicBlock) {
 				eachInstr(g, func(in2 ssa.Instruction) {
@@ -964,14 +1017,27 @@ func ruleV10(c *Ctx) {
 					if mc == nil && !(entry == in2.Block() || entry.Dominates(in2.Block())) {
 						return
 					}
-					for _, a := range ci.Common().Args {
-						if p, ok := accessPath(a, v, mayEmit, mc, 0); ok {
-							an := anchor
-							if mc == nil {
-								an = in2.Block()
-							}
-							sites = append(sites, site{p, ci, an, mc != nil})
+					for ai, a := range ci.Common().Args {
+						if !isNodeish(a.Type()) {
+							continue // positions, flags, blocks: not operands
 						}
+						p, ok := accessPath(a, v, mayEmit, mc, 0)
+						if !ok {
+							continue
+						}
+						an := anchor
+						if mc == nil {
+							an = in2.Block()
+						}
+						// the node itself handed to a helper typed for it: the helper compiles some of
+						// its children (its summary), not necessarily all of them
+						if p == "" && ai < len(cal.Params) && syntaxNodeName(cal.Params[ai].Type()) != "" {
+							for _, sp := range compiledPaths(cal, cal.Params[ai], mayEmit, evaluates, map[*ssa.Function]bool{g: true}, 3) {
+								sites = append(sites, site{sp, ci, an, mc != nil})
+							}
+							continue
+						}
+						sites = append(sites, site{p, ci, an, mc != nil})
 					}
 				})
 			}
@@ -982,15 +1048,18 @@ func ruleV10(c *Ctx) {
 				}
 			})
 			key := fmt.Sprintf("%s: arm %s", fnName(fn), node)
-			pos := c.P.Pos(ta.Pos())
+			pos := c.P.Pos(armPos)
 			if len(sites) < 2 {
 				c.trivial(key, pos, fmt.Sprintf("%d evaluating call(s) on parts of the node", len(sites)))
-				return
+				continue
 			}
 			bad := ""
 			for i := 0; i < len(sites) && bad == ""; i++ {
 				for j := i + 1; j < len(sites); j++ {
 					a, b := sites[i], sites[j]
+					if a.call == b.call {
+						continue // two parts compiled by one helper call: judged inside the helper, where its branches are visible
+					}
 					if !(strings.HasPrefix(a.path, b.path) || strings.HasPrefix(b.path, a.path)) {
 						continue
 					}
@@ -1021,6 +1090,195 @@ func ruleV10(c *Ctx) {
 			} else {
 				c.ok(key, pos, fmt.Sprintf("%d evaluating calls, pairwise on different operands or on exclusive paths", len(sites)))
 			}
+		}
+	}
+}
+
+// A compArm is a piece of the compiler that handles one kind of syntax node:
+// an arm of a type switch on a parameter, or a whole helper whose parameter
+// already has the node's type (the form arms take after being extracted).
+type compArm struct {
+	fn    *ssa.Function
+	node  string
+	st    *types.Struct
+	v     ssa.Value       // the node
+	prm   *ssa.Parameter  // the interface-typed operand the arm was selected from (nil for helpers)
+	entry *ssa.BasicBlock // first block of the arm
+	pos   token.Pos
+}
+
+func compArms(fn *ssa.Function) []compArm {
+	var out []compArm
+	if fn.Blocks == nil {
+		return nil
+	}
+	for _, p := range fn.Params {
+		if node := syntaxNodeName(p.Type()); node != "" {
+			st := p.Type().(*types.Pointer).Elem().Underlying().(*types.Struct)
+			out = append(out, compArm{fn, node, st, p, nil, fn.Blocks[0], fn.Pos()})
+		}
+	}
+	eachInstr(fn, func(in ssa.Instruction) {
+		ta, ok := in.(*ssa.TypeAssert)
+		if !ok || !ta.CommaOk {
+			return
+		}
+		prm, ok := ta.X.(*ssa.Parameter)
+		if !ok {
+			return
+		}
+		node := syntaxNodeName(ta.AssertedType)
+		if node == "" {
+			return
+		}
+		st := ta.AssertedType.(*types.Pointer).Elem().Underlying().(*types.Struct)
+		var v ssa.Value
+		var entry *ssa.BasicBlock
+		for _, r := range *ta.Referrers() {
+			ex, ok := r.(*ssa.Extract)
+			if !ok {
+				continue
+			}
+			if ex.Index == 0 {
+				v = ex
+			}
+			if ex.Index == 1 && ex.Referrers() != nil {
+				for _, r2 := range *ex.Referrers() {
+					if ifi, ok := r2.(*ssa.If); ok {
+						entry = ifi.Block().Succs[0]
+					}
+				}
+			}
+		}
+		if entry == nil || v == nil {
+			return
+		}
+		out = append(out, compArm{fn, node, st, v, prm, entry, ta.Pos()})
+	})
+	return out
+}
+
+// isVarCellOfNodeType: the alloc is a spilled local variable holding an
+// expression or node (not an aggregate being built).
+func isVarCellOfNodeType(a *ssa.Alloc) bool {
+	t := deref(a.Type())
+	if syntaxNodeName(t) != "" || isSyntaxIface(t, "Expr") || isSyntaxIface(t, "Node") || isSyntaxIface(t, "Stmt") {
+		return true
+	}
+	if s, ok := t.(*types.Slice); ok {
+		return isSyntaxIface(s.Elem(), "Expr") || isSyntaxIface(s.Elem(), "Stmt")
+	}
+	return false
+}
+
+// predicateTrueSet: for a one-parameter bool function, the constants c such
+// that `param == c` leads straight to `return true`.
+func predicateTrueSet(fn *ssa.Function) []int64 {
+	if fn.Blocks == nil || len(fn.Params) != 1 || fn.Signature.Results().Len() < 1 {
+		return nil
+	}
+	returnsTrue := func(b, from *ssa.BasicBlock) bool {
+		for hops := 0; hops < 4; hops++ {
+			if len(b.Instrs) == 0 {
+				return false
+			}
+			switch last := b.Instrs[len(b.Instrs)-1].(type) {
+			case *ssa.Return:
+				res := last.Results[len(last.Results)-1]
+				if phi, ok := res.(*ssa.Phi); ok && phi.Block() == b {
+					for i, p := range b.Preds {
+						if p == from {
+							res = phi.Edges[i]
+						}
+					}
+				}
+				k, ok := res.(*ssa.Const)
+				return ok && k.Value != nil && k.Value.String() == "true"
+			case *ssa.Jump:
+				from, b = b, b.Succs[0]
+			default:
+				return false
+			}
+		}
+		return false
+	}
+	var out []int64
+	eachInstr(fn, func(in ssa.Instruction) {
+		ifi, ok := in.(*ssa.If)
+		if !ok {
+			return
+		}
+		bo, ok := ifi.Cond.(*ssa.BinOp)
+		if !ok || bo.Op != token.EQL || bo.X != ssa.Value(fn.Params[0]) {
+			return
+		}
+		if k, ok := constInt(bo.Y); ok && returnsTrue(ifi.Block().Succs[0], ifi.Block()) {
+			out = append(out, k)
+		}
+	})
+	return out
+}
+
+// isNodeish: the static type can hold (part of) a syntax tree.
+func isNodeish(t types.Type) bool {
+	if syntaxNodeName(t) != "" || isSyntaxIface(t, "Expr") || isSyntaxIface(t, "Node") || isSyntaxIface(t, "Stmt") {
+		return true
+	}
+	if s, ok := t.(*types.Slice); ok {
+		return isNodeish(s.Elem())
+	}
+	return false
+}
+
+// compiledPaths: the access paths (relative to node parameter prm) that
+// function fn hands to evaluating calls, helpers typed for the node included.
+func compiledPaths(fn *ssa.Function, prm *ssa.Parameter, mayEmit, evaluates map[*ssa.Function]bool, onStack map[*ssa.Function]bool, depth int) []string {
+	if fn.Blocks == nil || depth == 0 || onStack[fn] {
+		return nil
+	}
+	onStack[fn] = true
+	defer delete(onStack, fn)
+	seen := map[string]bool{}
+	var out []string
+	add := func(p string) {
+		if !seen[p] {
+			seen[p] = true
+			out = append(out, p)
+		}
+	}
+	scan := func(g *ssa.Function, mc *ssa.MakeClosure) {
+		eachInstr(g, func(in ssa.Instruction) {
+			ci, ok := in.(ssa.CallInstruction)
+			if !ok {
+				return
+			}
+			cal := ci.Common().StaticCallee()
+			if cal == nil || !evaluates[cal] {
+				return
+			}
+			for ai, a := range ci.Common().Args {
+				if !isNodeish(a.Type()) {
+					continue
+				}
+				p, ok := accessPath(a, prm, mayEmit, mc, 0)
+				if !ok {
+					continue
+				}
+				if p == "" && ai < len(cal.Params) && syntaxNodeName(cal.Params[ai].Type()) != "" {
+					for _, sp := range compiledPaths(cal, cal.Params[ai], mayEmit, evaluates, onStack, depth-1) {
+						add(sp)
+					}
+					continue
+				}
+				add(p)
+			}
 		})
 	}
+	scan(fn, nil)
+	eachInstr(fn, func(in ssa.Instruction) {
+		if mc, ok := in.(*ssa.MakeClosure); ok {
+			scan(mc.Fn.(*ssa.Function), mc)
+		}
+	})
+	return out
 }
